@@ -86,6 +86,11 @@ class Check:
                     dis.append({'case': {'kind': 'collection', 'docs': docs, 'inc': inc, 'flag': flag}, 'impl': str(i), 'model': str(m), 'explained': bool(what)})
             if len(samples) < 3 and meta['rc'] == 1 and meta['rd'] == 2:
                 samples.append({'counts': meta, 'allow_incomplete': inc, 'default': a[:2], '-O': b[:2]})
+        import static
+        asserts = static.validate_asserts(impl.REPO)
+        if asserts and not vio:
+            dis.append({'case': {'kind': 'static', 'assert_lines': asserts}, 'impl': 'MosCollection._validate contains assert statements',
+                        'model': 'validation is unconditional', 'explained': False})
         return {'evaluations': n, 'distinct': len(sigs), 'rule': self.rule, 'samples': samples,
                 'distribution': {'collections': len(cols)}, 'disagreements': dis, 'violations': vio,
                 'exhaustive': True, 'extra': {'flags': ['default', '-O']}}
